@@ -66,6 +66,12 @@ CONFIGS = {
                          '-mf16c', '-fsanitize=address'],
                  ldflags=['-fsanitize=address'],
                  cpu=['avx2', 'avx512f', 'avx512vl', 'f16c']),
+    # everything the host CPU offers (BMI2, AVX2, ...): code paths selected by
+    # __BMI2__/__AVX2__ style macros are dead in the other configurations
+    'native': dict(cc='clang', cxx='clang++',
+                   cflags=['-O2', '-g', '-march=native', '-fsanitize=address',
+                           '-fno-omit-frame-pointer'],
+                   ldflags=['-fsanitize=address']),
     'msan': dict(cc='clang', cxx=None,
                  cflags=['-O1', '-g', '-fno-omit-frame-pointer',
                          '-fsanitize=memory',
